@@ -61,7 +61,8 @@ fn search(prop: &str, seed: u64, obls: &[String]) -> Option<Found> {
     match prop {
         "C07" => c07::search(seed, obls, false),
         "C18" => c07::search(seed, obls, true),
-        "C01" => opw::search("c01", seed, 60000),
+        // C01 covers every inverse entry point, wrapped robots included: the bare-robot oracle first, then the wrapper stacks
+        "C01" => opw::search("c01", seed, 60000).or_else(|| wrap::search("c09", seed, 20000)),
         "C02" => opw::search("c02", seed, 60000),
         "C03" => opw::search("c03", seed, 60000),
         "C04" => opw::search("c04", seed, 60000),
@@ -84,6 +85,7 @@ fn search(prop: &str, seed: u64, obls: &[String]) -> Option<Found> {
 fn replay(prop: &str, kind: &str, case: &str) -> Option<Found> {
     match prop {
         "C07" | "C18" => c07::replay(kind, case),
+        "C01" if kind == "c09" => wrap::replay(kind, case),
         "C01" | "C02" | "C03" | "C04" | "C05" | "C06" | "C08" => opw::replay(kind, case),
         "C09" | "C16" => wrap::replay(kind, case),
         "C10" | "C11" | "C14" => col::replay(kind, case),
